@@ -517,6 +517,50 @@ func GenListSized(r *prng.R, idx, maxStyles, maxRegions, maxItems int) ListSpec 
 		}
 		l.Items = append(l.Items, it)
 	}
+	if ns >= 2 && r.Bool(0.25) {
+		// an inheritance chain whose ancestors are referenced by nothing but their descendants (what a TTML file with
+		// a base style looks like): s0 <- s1 (<- s2); every direct reference to an ancestor is moved to the last link
+		chain := 2
+		if ns >= 3 && r.Bool(0.5) {
+			chain = 3
+		}
+		l.Styles[0].Parent = ""
+		for k := 1; k < chain; k++ {
+			l.Styles[k].Parent = l.Styles[k-1].ID
+		}
+		last := l.Styles[chain-1].ID
+		anc := map[string]bool{}
+		for k := 0; k < chain-1; k++ {
+			anc[l.Styles[k].ID] = true
+		}
+		for k := chain; k < ns; k++ {
+			if anc[l.Styles[k].Parent] {
+				l.Styles[k].Parent = last
+			}
+		}
+		for i := range l.Regions {
+			if anc[l.Regions[i].Style] {
+				l.Regions[i].Style = last
+			}
+		}
+		used := false
+		for i := range l.Items {
+			if anc[l.Items[i].Style] {
+				l.Items[i].Style = last
+			}
+			used = used || l.Items[i].Style == last
+			for j := range l.Items[i].Lines {
+				for k := range l.Items[i].Lines[j].Items {
+					if anc[l.Items[i].Lines[j].Items[k].Style] {
+						l.Items[i].Lines[j].Items[k].Style = last
+					}
+				}
+			}
+		}
+		if !used && len(l.Items) > 0 {
+			l.Items[0].Style = last
+		}
+	}
 	return l
 }
 
